@@ -164,7 +164,7 @@ func (self *ProxyServerProtocol) ProcessLockResultCommandLocked(command *protoco
 	if self.serverProtocol == defaultServerProtocol {
 		defaultServerProtocol.slock.clientsGlock.Lock()
 		if self.serverProtocol == defaultServerProtocol {
-			if serverProtocol, ok := defaultServerProtocol.slock.clients[self.clientId]; ok {
+			if serverProtocol, ok := defaultServerProtocol.slock.clients[self.clientId]; ok && self.clientId != ([16]byte{}) {
 				defaultServerProtocol.slock.clientsGlock.Unlock()
 				err := serverProtocol.AddProxy(self)
 				if err == nil {
